@@ -324,6 +324,9 @@ mod headers {
     // sections apart.
     static NAMES: [&str; 6] = ["", "n", "nn", "nnn", "nnnn", "nnnnn"];
     fn stub_repeated_path(line: &str) -> Option<String> {
+        if line.len() == 18 {
+            return None; // "diff --git a/X b/Y" with two different paths: no repeated path
+        }
         let k = if line.len() >= 20 && line.len() < 26 { line.len() - 20 } else { 0 };
         Some(NAMES[k].to_string())
     }
@@ -362,6 +365,17 @@ mod headers {
     }
     fn stub_delta_unreachable(_m: &str) -> ! {
         panic!("delta_unreachable reached")
+    }
+
+    fn stub_state_clone(s: &State) -> State {
+        match s {
+            State::DiffHeader(DiffType::Unified) => State::DiffHeader(DiffType::Unified),
+            State::Unknown => State::Unknown,
+            _ => {
+                assert!(false, "harness: unexpected state");
+                State::Unknown
+            }
+        }
     }
 
     struct Cfg {
@@ -423,6 +437,7 @@ mod headers {
             || sm.handle_diff_header_minus_line().unwrap()
             || sm.handle_diff_header_plus_line().unwrap()
             || sm.handle_diff_header_mode_line().unwrap()
+            || sm.handle_diff_header_misc_line().unwrap()
             || sm.should_skip_line()
             || sm.emit_line_unchanged().unwrap();
         assert!(handled, "every metadata line is claimed by exactly one step of the chain");
@@ -454,6 +469,7 @@ mod headers {
             #[kani::stub(crate::utils::path::absolute_path, stub_absolute_path)]
             #[kani::stub(std::fmt::format, stub_format)]
             #[kani::stub(crate::config::delta_unreachable, stub_delta_unreachable)]
+            #[kani::stub(<State as std::clone::Clone>::clone, stub_state_clone)]
             fn $name() {
                 let mut cfg_mem = MaybeUninit::<Config>::uninit();
                 let mut sm_mem = MaybeUninit::<StateMachine>::uninit();
@@ -552,5 +568,27 @@ mod headers {
             assert!(unchanged == 0, "no metadata line shown besides the headers");
         }
         kani::cover!(!cfg.color_only && cfg.handled && headers == 2, "both headers written");
+    });
+
+    // A modified file followed by a section whose diff line names two DIFFERENT paths and that has
+    // only an index line and a "Binary files ... differ" line (git diff --no-index, concatenated
+    // diffs): the second section must not inherit the first one's names - its Binary line is
+    // shown as it is and no second header is invented from stale paths.
+    header_harness!(c14_headers_modified_then_binary_two_paths, |sm, cp, cfg| {
+        feed(sm, "diff --git a/f b/f");
+        feed(sm, "index 1111111..2222222 100644");
+        feed(sm, "--- a/f");
+        feed(sm, "+++ b/f");
+        feed(sm, "diff --git a/X b/Y"); // 18 bytes: two different paths
+        feed(sm, "index 3333333..4444444 100644");
+        feed(sm, "Binary files a/X and b/Y differ");
+        sm.handle_pending_line_with_diff_name().unwrap();
+        let (headers, paths, unchanged, _) = read(cp);
+        if !cfg.color_only && cfg.handled {
+            assert!(headers == 1, "only the first section gets a header built from (path, path)");
+            assert!(paths == 0x11, "no header is built from the previous section's paths");
+            assert!(unchanged == 1, "the Binary files line of the second section is shown as it is");
+        }
+        kani::cover!(!cfg.color_only && cfg.handled && unchanged == 1, "binary line passed through");
     });
 }
